@@ -18,7 +18,8 @@
    semver.Maven.Parse / RubyGems.Parse and their compare .......... Properties/C04_mvngem.v
    ParseConstraint / parseSet / Union / Intersect / Match ......... Properties/C04_constraints.v
    semver.NuGet/.. comparison of parsed versions never fails ..... C01_family (compare = Ok)
-   pypi.SdistVersion / pypi.ParseWheelName ........................ Properties/C04_pypifiles.v *)
+   pypi.SdistVersion / pypi.ParseWheelName ........................ Properties/C04_pypifiles.v
+   System.Difference / Version.Difference .......................... Properties/C04_difference.v *)
 From DepsDev Require Properties.C07 Properties.C01_pypi Properties.C01_maven Properties.C13 Properties.C15 Properties.C16 Properties.C06 Properties.C08.
 
 Definition C04_maven_compare_total := Properties.C01_maven.C01_maven_compare_total.
